@@ -402,6 +402,21 @@ static void run_one(void)
     nsched = 0;
     m_clock = o_start;
     opname = "init";
+    if (vx_opt_int("reuse", 1)) {
+        /* an earlier life of the thread's event queue: filled beyond its first growth, partly cancelled, cleared,
+         * refilled, terminated - then the queue this execution works with is initialized (a program running
+         * several trials on one thread) */
+        cmb_event_queue_initialize(100.0);
+        uint64_t hs[11];
+        for (int k = 0; k < 11; k++) {
+            hs[k] = cmb_event_schedule(ACT[0], (void *)(uintptr_t)0x7000, (void *)(uintptr_t)k, 100.0 + (k * 7) % 5, (int64_t)(k % 3));
+        }
+        (void)cmb_event_cancel(hs[4]);
+        (void)cmb_event_cancel(hs[0]);
+        cmb_event_queue_clear();
+        (void)cmb_event_schedule(ACT[0], (void *)(uintptr_t)0x7000, NULL, 101.0, 0);
+        cmb_event_queue_terminate();
+    }
     cmb_event_queue_initialize(o_start);
     check_all();
     for (int step = 0; step < o_depth; step++) {
